@@ -1348,10 +1348,17 @@ func runRetry(casesPath, tracePath, resPath string, shard, shards int) {
 					occupied = true
 				}
 			}
+			// RouteActionRetry defect "PerTryTimerSurvivesRetry": a per-try timeout is in effect and the first attempt ends with
+			// another retryable outcome - the worker is held in the set-up of the retry until that attempt's per-try
+			// timeout is over (every fourth such run): no per-try timeout may be applied to the attempt that has ended
+			pastTry := ovfAt < 0 && t > 0 && idx%4 == 0 && len(c.Script) > 1 && !contains(c.Script, "gtmo") &&
+				c.Script[0] != "ptmo" && c.Script[0] != "gtmo"
 			if ovfAt == 0 {
 				occupy()
 			} else if ovfAt > 0 {
 				sched.HoldNth("ds.retry.begin", ovfAt)
+			} else if pastTry {
+				sched.HoldNth("ds.retry.begin", 1)
 			}
 			cl, err := e2e.DialHTTP(laddr)
 			vh.Must(err, "dial proxy")
@@ -1363,6 +1370,12 @@ func runRetry(casesPath, tracePath, resPath string, shard, shards int) {
 				reached = sched.AwaitArrive("ds.retry.begin", 5*time.Second)
 				if reached {
 					occupy()
+				}
+				sched.Release("ds.retry.begin")
+			}
+			if pastTry {
+				if sched.AwaitArrive("ds.retry.begin", 2*time.Second) {
+					time.Sleep(time.Duration(t+15) * time.Millisecond)
 				}
 				sched.Release("ds.retry.begin")
 			}
